@@ -359,15 +359,29 @@ fn apply_stack_effects(fun_builder: &mut FunBuilder, instructions: &mut [Symboli
   let parameter_slots = fun_builder.parameter_count() as i32;
   let mut slots: i32 = 1;
 
+  // false between an unconditional transfer and the next label something reaches. Such code
+  // (the join after an if whose arms both break, continue or return) never runs, and the depth
+  // left behind by the transfer says nothing about it
+  let mut reachable = true;
+
   for instruction in instructions {
+    if let SymbolicByteCode::Label(label) = instruction {
+      let index = label.val() as usize;
+      match label_slots.get(index).copied().flatten() {
+        Some(label_slots) => {
+          slots = label_slots;
+          reachable = true;
+        },
+        None if reachable => record(&mut label_slots, label, slots),
+        None => (),
+      }
+    }
+
+    if !reachable {
+      continue;
+    }
+
     match instruction {
-      SymbolicByteCode::Label(label) => {
-        let index = label.val() as usize;
-        match label_slots.get(index).copied().flatten() {
-          Some(label_slots) => slots = label_slots,
-          None => record(&mut label_slots, label, slots),
-        }
-      },
       SymbolicByteCode::PushHandler((_, label)) => {
         // an unwind resets the stack to the depth the handler was pushed at
         record(&mut label_slots, label, slots);
@@ -394,6 +408,14 @@ fn apply_stack_effects(fun_builder: &mut FunBuilder, instructions: &mut [Symboli
     slots += instruction.stack_effect();
     debug_assert!(slots >= 0);
     fun_builder.update_max_slots(slots);
+
+    if let SymbolicByteCode::Jump(_)
+    | SymbolicByteCode::Loop(_)
+    | SymbolicByteCode::Return
+    | SymbolicByteCode::Raise = instruction
+    {
+      reachable = false;
+    }
   }
 }
 
